@@ -17,6 +17,14 @@ class LoopSpec(object):
         self.inv, self.modifies, self.assumes, self.note, self.on_exit, self.tags = inv, (modifies or {}), assumes, note, on_exit, tuple(tags)
 
 
+class PrefixCut(object):
+    """the contract of the enclosing function covers the code up to this loop only: `hook(interp, fr, it)` emits the obligations
+    about the state at the loop head, then the path ends (what the loop and the code after it do is NOT under contract)"""
+
+    def __init__(self, hook, note=''):
+        self.hook, self.note = hook, note
+
+
 class LoopState(object):
     pass
 
